@@ -151,7 +151,7 @@ inline Op opParamMandatoryBad(const std::string& grp, const std::string& pname, 
     o.enabled = [grp](const World&, const WSnap& s) { const GSnap* g = s.o.group(grp); return g && !g->params.empty(); };   // (an ANALOG group left empty by the file is not "mandatory")
     o.apply = [grp, pname, how](World& w, const WSnap&, CallInfo& ci) {
         ci.kind = K_PARAM_UNTYPED; ci.group = grp; ci.dev = how; Param p(pname);
-        if (how == "int") p.set(5); else if (how == "float") p.set(2.5f); else if (how == "string") p.set(std::string("x")); else if (how == "empty-int") p.set(std::vector<int>() = {}); else p.set(std::vector<float>() = {});
+        if (how == "int3") p.set(std::vector<int>() = {1, 2, 3}); else if (how == "int") p.set(5); else if (how == "float") p.set(2.5f); else if (how == "string") p.set(std::string("x")); else if (how == "empty-int") p.set(std::vector<int>() = {}); else p.set(std::vector<float>() = {});
         ci.givenParam = snapParam(p); w.c->parameter(grp, p);
     };
     return o;
